@@ -5,7 +5,7 @@ from harness.oracles import all as ALL
 ID = 'C02'
 UNITS = ['event_metrics', 'transcription_scores', 'melody_metrics', 'seg_cluster_q', 'hier_gauc', 'chord_cmp', 'weighted_accuracy', 'key_score', 'pattern_scores', 'alignment_scores', 'tempo_detection', 'beat_q', 'beat_ig', 'multipitch_metrics', 'match_events']
 TRANSLATORS = []
-NOT_COVERED = 'Partial: the information-gain entropy step and the entropic segment scores are covered by the oracle only.'
+NOT_COVERED = 'Partial: the information-gain entropy step and AMI of identical annotations are covered by the oracle only.'
 ASSUMPTIONS = ['exact-arithmetic lattices for the correspondence (DESIGN.md section 2.1); NumPy/SciPy primitives as modelled per module']
 
 oracle_search = propgen.budgeted([ALL.for_property(ID)])
